@@ -3,7 +3,7 @@
  "name": "p1x_ea_block_entry_detect",
  "props": ["C02", "C06"],
  "level": "U/iter",
- "tier": "wip",
+ "tier": "quick",
  "tier_after_hooks": "quick",
  "harness": "h_eab_detect",
  "loop_contracts": true,
@@ -313,6 +313,9 @@ static void eab_common_checks(struct eab_env *e, int r)
 		CHECK(p1x_inc_calls == 1 && p1x_inc_same && p1x_inc_first_off == 32 && p1x_inc_end_off == P1X_BS,
 		      "kept block: EA-inode references counted over [first entry, block end)");
 		CHECK(ino->i_file_acl == (unsigned int) IN.file_acl, "kept block: reference untouched");
+		/* first sighting: this inode is one of the h_refcount expected references */
+		CHECK(eab_rc_stores == 1 && eab_rc_val == (unsigned long long) (PEA_H_REFCOUNT(p1x_buf) - 1u),
+		      "kept block: expected further references = h_refcount - 1, stored once");
 	}
 	/* a clean walk found its terminator inside the block */
 	if (r == 1 && !p1x_any_ever)
